@@ -213,7 +213,7 @@ pub proof fn lemma_deep_subrange(a: Seq<&[u8]>, i: int, j: int)
 /// one entry per hunk, recorded lines in machine range, and the changed regions it is going to restore in increasing order
 pub open spec fn rollback_pre(hs: Seq<Hunk<&[u8]>>, d: PatchDirection, prev: Seq<HunkApplyReport>, clen: int) -> bool {
     &&& prev.len() == hs.len()
-    &&& forall|i: int| 0 <= i < prev.len() && (#[trigger] prev[i]) is Applied ==> -BIG() < prev[i]->rollback_line < BIG()
+    &&& forall|i: int| 0 <= i < prev.len() && (#[trigger] prev[i]) is Applied ==> -BIG() < prev[i]->rollback_line < 2 * BIG()
     &&& forall|i: int, j: int| 0 <= i < j < prev.len() && (#[trigger] prev[i]) is Applied && (#[trigger] prev[j]) is Applied ==>
             prev[i]->rollback_line + v_old(hs[i], d, prev[i]->fuzz as int).len() - v_sc(hs[i], prev[i]->fuzz as int)
             <= prev[j]->rollback_line + v_pc(hs[j], prev[j]->fuzz as int)
